@@ -1273,8 +1273,14 @@ class GenModel:
             inits = {i.name: i for i in self.model.graph.initializer}
             for name in self.overridable:
                 default = numpy_helper.to_array(inits[name])
-                out[name] = make_array(int(rng.integers(0, 2**31 - 1)), default.dtype, default.shape,
-                                       ["smallint", "edge", "mixed"][int(rng.integers(0, 3))])
+                sub = int(rng.integers(0, 2**31 - 1))
+                how = int(rng.integers(0, 6))
+                if default.dtype == np.int64 and default.ndim == 1 and 2 <= default.size <= 8 and how < 3 and len(set(default.tolist())) > 1:
+                    # shape-like / axes-like operand: a different arrangement of the same entries is usually still a valid operand
+                    # (Reshape target, perm, axes), whereas random integers almost never are
+                    out[name] = default[::-1].copy() if how == 0 else np.random.default_rng(sub).permutation(default)
+                    continue
+                out[name] = make_array(sub, default.dtype, default.shape, ["smallint", "edge", "mixed"][int(rng.integers(0, 3))])
         return out
 
     def seeds(self, k=2):
